@@ -972,6 +972,26 @@ func (en *env) callExpr(v *ECall) tval {
 			term = "(concat " + strings.Join(bs, " ") + ")"
 		}
 		return tval{term: term, typ: types.NewArray(types.Typ[types.Uint8], int64(k))}
+	case "cat":
+		// cat(a, b, ...): concatenation of bit-vector values, most significant first
+		var ts []string
+		w := 0
+		for _, a := range v.Args {
+			x := en.eval(a)
+			if x.lit != nil {
+				en.fail("cat: literal operands need a conversion")
+			}
+			sx := en.e.sortOf(x.typ)
+			if sx.kind != skBV {
+				en.fail("cat of %s", x.typ)
+			}
+			w += sx.width
+			ts = append(ts, x.term)
+		}
+		if w%8 != 0 {
+			en.fail("cat: total width %d is not a multiple of 8", w)
+		}
+		return tval{term: "(concat " + strings.Join(ts, " ") + ")", typ: types.NewArray(types.Typ[types.Uint8], int64(w/8))}
 	case "ult", "ule", "ugt", "uge":
 		a, b := en.unify(en.eval(v.Args[0]), en.eval(v.Args[1]))
 		return tval{term: app("bv"+v.Fun, a.term, b.term), typ: boolT}
